@@ -135,7 +135,7 @@ type DecodedRow struct {
 	Old, New       Row
 	HasOld, HasNew bool
 	// v2
-	Initial, Insert, Modify, Delete Row
+	Initial, Insert, Modify, Delete             Row
 	HasInitial, HasInsert, HasModify, HasDelete bool
 	Keys                                        []string
 }
